@@ -163,24 +163,34 @@ def r2_guards(ctx):
               'rejected with ValueError before anything is stored',
               key='surplus-raise', where=where(f))
     # completion protocol
+    def is_done_cmp(a):
+        return U(a) in ('self.attachment_count == len(self.attachments)',
+                        'len(self.attachments) == self.attachment_count')
     for p in run.paths:
         if p.exit != 'return':
             continue
-        if is_const(p.value, True):
-            done = [c for c in p.conds if c.pol and U(run.expand(c.atom)) in
-                    ('self.attachment_count == len(self.attachments)',
-                     'len(self.attachments) == self.attachment_count')]
-            rec = p.calls('reconstruct_binary')
-            app = [e for e in p.calls('append')
-                   if e.recv() == 'self.attachments']
-            ctx.check(bool(done) and bool(rec) and app and
-                      done[0].at > app[0].idx, construct, 'True only when '
-                      'the count is reached after the append, data '
-                      'reconstructed', key='complete', where=where(f))
-        else:
-            ctx.check(is_const(p.value, False), construct, 'every other '
-                      'normal exit returns False', key='incomplete',
-                      reason='returns %s' % txt(p.value), where=where(f))
+        app = [e for e in p.calls('append')
+               if e.recv() == 'self.attachments']
+        done = None
+        for c in p.conds:
+            if is_done_cmp(run.expand(c.atom)) and app and \
+                    c.at > app[0].idx:
+                done = c.pol
+        v = run.expand(p.value) if p.value is not None else None
+        rec = p.calls('reconstruct_binary')
+        if done is None:
+            ctx.bad(construct, 'complete-untested', 'a path returns %s '
+                    'without comparing the attachment count with the number '
+                    'received after the append' % txt(v), where(f))
+            continue
+        okv = (isinstance(v, ast.Constant) and v.value is done) or \
+            (v is not None and is_done_cmp(v))
+        ctx.check(okv and bool(rec) == done, construct,
+                  'returns %s exactly when the declared count is reached '
+                  'after the append, data reconstructed then and only then'
+                  % done, key='complete', reason='with count reached=%s the '
+                  'function returns %s and reconstructs %d time(s)' % (
+                      done, txt(v), len(rec)), where=where(f))
     # ---- decode
     f = m.own_method('Packet', 'decode')
     construct = 'Packet.decode'
@@ -196,7 +206,7 @@ def r2_guards(ctx):
     if not count_int or not id_int:
         raise AnalysisError('Packet.decode: int() conversions of the count '
                             'and the id not found')
-    run = Run(f.node, max_iter=1, max_paths=200000)
+    run = run_function(f, ctx.model, max_iter=1, max_paths=200000)
     for n in count_int:
         sl = n.value.args[0].slice
         bound_var = U(sl.upper) if isinstance(sl, ast.Slice) and sl.upper \
